@@ -271,7 +271,7 @@ fn load_paths(ctx: &mut Ctx, links: &[Link], dir: &std::path::Path, tag: &str) -
 }
 
 /// rewrite a current-layout YAML value into the legacy layout (speed_sets as a typed list)
-fn to_legacy(v: &serde_yaml::Value) -> Option<serde_yaml::Value> {
+pub(crate) fn to_legacy(v: &serde_yaml::Value) -> Option<serde_yaml::Value> {
     let seq = v.as_sequence()?;
     let mut out = vec![];
     for l in seq {
